@@ -71,27 +71,23 @@ impl World {
         World { alice, bob, arepo, brepo, rid, base, head }
     }
 
-    /// Remove every patch/issue ref of both peers from both storages (each peer
-    /// deletes its own refs and re-signs; the other side prunes on fetch).
+    /// Remove every patch/issue ref (of every namespace) from both storages and re-sign
+    /// each peer's own refs: both repositories are back to the state after the clone.
     fn reset(&self) {
         for (repo, node) in [(&*self.arepo, &self.alice), (&self.brepo, &self.bob)] {
-            let pk = node.signer.public_key();
-            let glob = format!("refs/namespaces/{pk}/refs/cobs/*");
             let names: Vec<String> = repo
                 .raw()
-                .references_glob(&glob)
+                .references_glob("refs/namespaces/*/refs/cobs/*")
                 .unwrap()
                 .filter_map(|r| r.ok().and_then(|r| r.name().map(|s| s.to_string())))
                 .collect();
-            for n in names {
+            timed("reset-delete", || for n in names {
                 if n.contains("xyz.radicle.patch") || n.contains("xyz.radicle.issue") {
                     repo.raw().find_reference(&n).unwrap().delete().unwrap();
                 }
-            }
-            repo.sign_refs(&node.signer).unwrap();
+            });
+            timed("reset-sign", || repo.sign_refs(&node.signer).unwrap());
         }
-        self.sync_bob_from_alice();
-        self.fetch_alice_from_bob();
     }
 
     fn sync_bob_from_alice(&self) -> Vec<RefUpdate> {
